@@ -15,7 +15,8 @@ for s in $seeds; do
     out=$(./check $p --tier quick 2>&1)
     nv=$(echo "$out" | grep -c "^VIOLATION")
     nf=$(echo "$out" | grep "^VIOLATION" | grep -vc "no-failing-input-found")
-    echo "$s: check=$p violations=$nv with_replay_input=$nf  $(echo "$out" | tail -1)"
+    neut=""; grep -q '"neutralized_by_fix"' seeded/$s/meta.json 2>/dev/null && neut=" [NEUTRALIZED by a later fix: 0 violations is the right answer, see meta.json]"
+    echo "$s: check=$p violations=$nv with_replay_input=$nf$neut  $(echo "$out" | tail -1)"
   done
   git -C /repo checkout -- .
 done
